@@ -338,6 +338,15 @@ func (cc *connectUnaryClientConn) Spec() Spec {
 
 func (cc *connectUnaryClientConn) Send(msg any) error {
 	if err := cc.marshaler.Marshal(msg); err != nil {
+		if !errors.Is(err, io.EOF) {
+			// The message could not be encoded, so nothing has been written. If
+			// the request went out like this, its empty body would be a perfectly
+			// valid (zero) message and the handler would run with it: fail the
+			// call, so that the request is aborted instead. (An error wrapping
+			// io.EOF is a failed write - the call has ended, and Receive reports
+			// how.)
+			cc.duplexCall.SetError(err)
+		}
 		return err
 	}
 	return nil // must be a literal nil: nil *Error is a non-nil error
